@@ -775,6 +775,11 @@ def rand_supply(rng, name):
             r['COUNT'] = [rng.randint(1, 9)]
         if rng.random() < 0.4:
             r['BYDAY'] = rng.sample(['MO', 'TU', '-1SU', '2FR'], rng.randint(1, 2))
+        # the documented mapping form also takes scalar part values, zero included
+        if rng.random() < 0.5:
+            r[rng.choice(['BYHOUR', 'BYMINUTE', 'BYSECOND'])] = rng.choice([0, 0, 12, [0], [0, 30]])
+        if rng.random() < 0.3:
+            r['INTERVAL'] = rng.randint(1, 4)
         return 'recur', r, ['RECUR']
     if t == 'BINARY':
         return 'binary', ''.join(rng.choice('abcXYZ 09') for _ in range(rng.randint(0, 9))).encode(), ['BINARY']
@@ -1130,6 +1135,9 @@ def check_node(ctx, inp, built, node, scanned, parsed, path):
                 want = norm_text(want)      # the documented normalisation of TEXT (C07): literal \N and CRLF become LF
             if rec.kind == 'categories':
                 want = [norm_text(x) for x in want]
+            if rec.kind == 'recur':
+                # a scalar part value and the one-element list are identified (vRecur's own normalisation)
+                want = {k.upper(): (list(v) if isinstance(v, (list, tuple)) else [v]) for k, v in want.items()}
             if rec.kind == 'datelist':
                 same = isinstance(got, list) and len(got) == len(want) and all(same_moment(g, w) for g, w in zip(got, want))
             else:
